@@ -181,9 +181,10 @@ def revBoard (cx : Ctx) (single : Bool) (s1 : RState) (c : Conn) : RState :=
     (cx.ds.rfootOf c.depStop).foldl (revFoot cx c mw) s1'
   else s1
 
-/-- has the loop reached its `break` at connection `c`? -/
+/-- has the loop reached its `break` at connection `c`? (after the `fix:` a7932ab: one more default
+    minimum waiting time is scanned, because a later-scanned boarding may need less waiting) -/
 def revBreak (cx : Ctx) (single : Bool) (s : RState) (c : Conn) : Bool :=
-  decide ((single ∧ s.reached ∧ cx.maxAccess ≥ 0 ∧ c.arr < s.tentAccDep - cx.maxAccess) ∨ cx.arrT - c.arr > cx.p.maxTotal)
+  decide ((single ∧ s.reached ∧ cx.maxAccess ≥ 0 ∧ c.arr < s.tentAccDep - cx.maxAccess - cx.p.minWait) ∨ cx.arrT - c.arr > cx.p.maxTotal)
 
 /-- one connection of the reverse scan; `usable` comes from the forward pass (all `true` for
     arrival-time queries) -/
